@@ -35,6 +35,37 @@ enum Profile { P_C01, P_C04, P_C05 };
 Profile profile() { std::string p = pbt_property; return p == "C04" ? P_C04 : p == "C05" ? P_C05 : P_C01; }
 }  // namespace
 
+#ifdef STRUCT_ORACLE
+// AVL structure oracle (needs -fno-access-control): parent / child links, stored height and slope equal to the recomputed
+// ones, |slope| <= 1, in-order walk equals the threaded list.  It turns a missed re-balance into a failure at the operation
+// that caused it instead of many operations later through the comparison bound.
+namespace {
+struct StructCheck {
+  Ctx& ctx; const char* opname; size_t count = 0; const void* prevInOrder = nullptr;
+  template <class Item> long walk(Item* it, Item* parent, Item*& threaded) {
+    if (!it) return 0;
+    if (it->parent != parent) ctx.fail("structure:parent-link", std::string(opname) + ": a node's parent pointer does not point to its parent");
+    long lh = walk(it->left, it, threaded);
+    if (threaded != it) ctx.fail("structure:thread-order", std::string(opname) + ": in-order walk of the tree differs from the linked iteration order");
+    threaded = it->next; ++count;
+    long rh = walk(it->right, it, threaded);
+    long h = (lh > rh ? lh : rh) + 1;
+    if ((long)it->height != h) { char d[200]; snprintf(d, sizeof d, "%s: node with key %d stores height %ld, its subtrees give %ld", opname, it->key.id, (long)it->height, h); ctx.fail("structure:stale-height", d); }
+    if ((long)it->slope != lh - rh) { char d[200]; snprintf(d, sizeof d, "%s: node with key %d stores slope %ld, its subtrees give %ld", opname, it->key.id, (long)it->slope, lh - rh); ctx.fail("structure:stale-slope", d); }
+    if (lh - rh > 1 || rh - lh > 1) { char d[200]; snprintf(d, sizeof d, "%s: node with key %d is out of balance (left height %ld, right height %ld)", opname, it->key.id, lh, rh); ctx.fail("structure:unbalanced", d); }
+    return h;
+  }
+};
+template <class C> void checkStructure(Ctx& ctx, C& K, const char* opname) {
+  StructCheck sc{ctx, opname};
+  auto* threaded = K._begin.item;
+  sc.walk(K.root, (decltype(K.root))0, threaded);
+  if (threaded != &K.endItem) ctx.fail("structure:thread-order", std::string(opname) + ": the tree does not contain every linked item");
+  if (sc.count != K._size) ctx.fail("structure:size", std::string(opname) + ": number of tree nodes differs from size()");
+}
+}  // namespace
+#endif
+
 void pbt_generate(Rng& r, int size, Case& c) {
   Profile pf = profile();
   int nops = 2 + (int)r.below((uint64_t)size * 2 + 1);
@@ -118,6 +149,9 @@ void pbt_run(const Case& cs, Ctx& ctx) {
       Cont& K = *C[c]; std::vector<Entry>& m = M[c];
       if (K.size() != m.size()) { char d[160]; snprintf(d, sizeof d, "after %s: container %d size %zu, model %zu", opname, c, (size_t)K.size(), m.size()); ctx.fail("mismatch:size", d); }
       if (K.isEmpty() != m.empty()) ctx.fail("mismatch:isEmpty", opname);
+#ifdef STRUCT_ORACLE
+      checkStructure(ctx, K, opname);
+#endif
       size_t i = 0;
       for (It it = K.begin(), e = K.end(); it != e; ++it, ++i) {
         if (i >= m.size()) ctx.fail("mismatch:iteration-too-long", opname);
